@@ -30,8 +30,11 @@ func digestFacts(data []byte) M {
 
 // mineChild runs one Mine call inside a child process so that a crash of the
 // process is an observation, not the end of the driver.
-func mineChild(data []byte, target float64, workers int) M {
-	spec, _ := json.Marshal(M{"data": vInts(data), "target": vFloat(target), "workers": workers})
+func mineChild(data []byte, target float64, workers int, prior interface{}) M {
+	if prior == nil {
+		prior = []interface{}{}
+	}
+	spec, _ := json.Marshal(M{"data": vInts(data), "target": vFloat(target), "workers": workers, "prior": prior})
 	cmd := exec.Command(os.Args[0], "-test.run", "^TestVerifChild$", "-test.count=1")
 	cmd.Env = append(os.Environ(), "VERIF_CHILD_IN="+string(spec))
 	done := make(chan struct{})
@@ -61,7 +64,7 @@ func mineChild(data []byte, target float64, workers int) M {
 		}
 	}
 	_ = err
-	return M{"crashed": true, "ok": false, "err": msg, "nonce": nonce8(0), "score": vFloat(0), "panic": ""}
+	return M{"crashed": true, "ok": false, "err": msg, "nonce": nonce8(0), "score": vFloat(0), "panic": "", "data_intact": true}
 }
 
 func TestVerifChild(t *testing.T) {
@@ -76,8 +79,17 @@ func TestVerifChild(t *testing.T) {
 	data := vBytes(spec["data"])
 	target := vFloatOf(spec["target"])
 	w := New(vIntOf(spec["workers"]))
-	nonce, err := w.Mine(context.Background(), data, target)
-	out := M{"ok": err == nil, "err": fmt.Sprint(err), "nonce": nonce8(nonce), "panic": ""}
+	// history: earlier calls on the SAME Worker with the SAME data buffer (contents overwritten in place)
+	buf := make([]byte, len(data))
+	if pr, ok := spec["prior"].([]interface{}); ok {
+		for _, x := range pr {
+			copy(buf, vBytes(x))
+			w.Mine(context.Background(), buf, target)
+		}
+	}
+	copy(buf, data)
+	nonce, err := w.Mine(context.Background(), buf, target)
+	out := M{"ok": err == nil, "err": fmt.Sprint(err), "nonce": nonce8(nonce), "panic": "", "data_intact": string(buf) == string(data)}
 	msg := append(append([]byte{}, data...), vBytes(toIface(nonce8(nonce)))...)
 	out["score"] = vFloat(Score(msg))
 	b, _ := json.Marshal(out)
@@ -101,7 +113,7 @@ func runF(op string, in M) (M, M) {
 		return M{"score": vFloat(s), "panic": p}, digestFacts(msg[:len(msg)-8])
 	case "pow.Mine":
 		data := vBytes(in["data"])
-		out := mineChild(data, vFloatOf(in["target"]), vIntOf(in["workers"]))
+		out := mineChild(data, vFloatOf(in["target"]), vIntOf(in["workers"]), in["prior"])
 		return out, digestFacts(data)
 	case "pow.required": // white box: the number of zeros Mine will look for
 		ln := vIntOf(in["len"])
@@ -179,7 +191,7 @@ func TestVerifDriver(t *testing.T) {
 				}
 			}
 		}
-		for _, x := range []float64{1e-300, math.SmallestNonzeroFloat64, 1e-9, 0.01, 0.04} {
+		for _, x := range []float64{1e-300, math.SmallestNonzeroFloat64, 1e-9, 0.01, 0.04, 0, -1, -1e-9, -1e300} {
 			emit("pow.required", M{"len": 8, "target": vFloat(x)})
 		}
 	}
@@ -213,7 +225,16 @@ func TestVerifDriver(t *testing.T) {
 			target = exact * (1 - 1e-15*float64(r.Intn(10)))
 		}
 		workers := []int{1, 1, 2, 3, 8, 16}[r.Intn(6)]
-		emit("pow.Mine", M{"data": vInts(data), "target": vFloat(target), "workers": workers})
+		mineIn := M{"data": vInts(data), "target": vFloat(target), "workers": workers}
+		if k%3 == 1 && len(data) > 0 { // the same Worker and buffer mined other contents of the same length before
+			p1 := make([]byte, len(data))
+			r.Read(p1)
+			mineIn["prior"] = [][]int{vInts(p1)}
+		}
+		emit("pow.Mine", mineIn)
+		if k%8 == 5 { // targets that every nonce meets: zero and negative
+			emit("pow.Mine", M{"data": vInts(data), "target": vFloat([]float64{0, -1, -1e-300, -1e300}[r.Intn(4)]), "workers": workers})
+		}
 		// Score of arbitrary messages
 		msg := make([]byte, 8+r.Intn(60))
 		r.Read(msg)
@@ -221,6 +242,9 @@ func TestVerifDriver(t *testing.T) {
 		// lane test on chosen planes
 		tz := make([]int, 64)
 		nn := r.Intn(12)
+		if k%5 == 0 { // the top of the range
+			nn = []int{242, 243, 241, 200}[r.Intn(4)]
+		}
 		for j := range tz {
 			tz[j] = r.Intn(nn + 1)
 			if r.Intn(3) == 0 && nn > 0 {
@@ -233,7 +257,12 @@ func TestVerifDriver(t *testing.T) {
 		case 1:
 			tz[0] = nn
 		case 2:
-			tz[r.Intn(64)] = nn + 240 - nn
+			tz[r.Intn(64)] = 243
+		}
+		for j := range tz {
+			if tz[j] > 243 {
+				tz[j] = 243
+			}
 		}
 		emit("pow.check", M{"tz": tz, "n": nn, "seed": r.Intn(1 << 30)})
 	}
